@@ -43,6 +43,34 @@ static void paths(const obs::Node &n, const std::string &prefix, std::map<std::s
     for (auto &c : n.kids) for (auto &k : c.second) paths(k, me + "." + c.first, out, all);
 }
 
+// one rejected creation per existing named entity: create a sibling of the same kind under the same name (must raise)
+static long dup_probe_sources(const Source &s) {
+    long n = 0;
+    for (Source c : s.sources()) { n++; vf::guarded([&] { Source(s).createSource(c.name(), "x"); }); n += dup_probe_sources(c); }
+    return n;
+}
+static long dup_probe_sections(const Section &s) {
+    long n = 0;
+    for (Section c : s.sections()) { n++; vf::guarded([&] { Section(s).createSection(c.name(), "x"); }); n += dup_probe_sections(c); }
+    for (Property pr : s.properties()) { n++; vf::guarded([&] { Section(s).createProperty(pr.name(), Variant(1.0)); }); vf::guarded([&] { Section(s).createProperty(pr.name(), DataType::Double); }); }
+    return n;
+}
+static long dup_probe(File &f) {
+    long n = 0;
+    for (Block b : f.blocks()) {
+        n++; vf::guarded([&] { f.createBlock(b.name(), "x"); });
+        std::vector<DataArray> das = b.dataArrays();
+        for (DataArray a : das) { n++; vf::guarded([&] { b.createDataArray(a.name(), "x", DataType::Double, NDSize({1})); }); }
+        for (DataFrame d : b.dataFrames()) { n++; vf::guarded([&] { b.createDataFrame(d.name(), "x", std::vector<Column>{{"k", "", DataType::Int32}}); }); }
+        for (Tag t : b.tags()) { n++; vf::guarded([&] { b.createTag(t.name(), "x", {1.0}); }); }
+        for (MultiTag t : b.multiTags()) { n++; vf::guarded([&] { b.createMultiTag(t.name(), "x", t.positions()); }); }
+        for (Group g : b.groups()) { n++; vf::guarded([&] { b.createGroup(g.name(), "x"); }); }
+        for (Source s : b.sources()) { n++; vf::guarded([&] { b.createSource(s.name(), "x"); }); n += dup_probe_sources(s); }
+    }
+    for (Section s : f.sections()) { n++; vf::guarded([&] { f.createSection(s.name(), "x"); }); n += dup_probe_sections(s); }
+    return n;
+}
+
 static std::string helper_path;
 static bool run_helper(const std::vector<std::string> &args, std::vector<std::string> &ids, std::string &err) {
     int fd[2];
@@ -118,6 +146,21 @@ int main(int argc, char **argv) {
                 } else if (before_set.count(kv.second)) {
                     vf::violation("C12|" + opname + "|new entity re-uses an id that existed before the step|" + kind, ctx + ": " + kv.first + " id " + kv.second, "REPLAY " + rargs);
                 }
+            }
+            // a creation under a name that is taken is rejected - and must not re-identify the entity that holds the name
+            {
+                long n = dup_probe(se.file);
+                vf::count("rejected_creations", n);
+                obs::Node again = obs::observe(se.file, E.oopt);
+                std::map<std::string, std::string> pc; std::vector<std::string> allc;
+                paths(again, "", pc, allc);
+                for (auto &kv : pa) {
+                    auto it = pc.find(kv.first);
+                    std::string kind = kv.first.substr(kv.first.rfind('/') + 1); kind = kind.substr(0, kind.find(':'));
+                    if (it == pc.end()) vf::violation("C12|rejected creation under a taken name|entity disappeared|" + kind, ctx + ": " + kv.first, "REPLAY " + rargs);
+                    else if (it->second != kv.second) vf::violation("C12|rejected creation under a taken name|id of an existing entity changed|" + kind, ctx + ": " + kv.first + " " + kv.second + " -> " + it->second, "REPLAY " + rargs);
+                }
+                after = again;
             }
             vf::count("traces");
             vf::distinct("outcomes", opname + "|" + std::to_string(pa.size() > pb.size() ? 1 : pa.size() < pb.size() ? -1 : 0));
